@@ -344,6 +344,29 @@ theorem RollOK_of_pay {s s' : State} (h : RollOK s) (hp : Pay s s') : RollOK s' 
 
 theorem RollOK_of_same {s s' : State} (h : RollOK s) (hp : Same s s') : RollOK s' := RollOK_of_pay h hp.pay
 
+theorem createGauge_rollok (s : State) (h : RollOK s) (o : Nat) (p : Bool) (d du : Nat) (hsup : Bool) (c : Coins) (st n : Nat) :
+    RollOK (createGauge s o p d du hsup c st n).2 := by
+  unfold createGauge
+  repeat' (first | split | dsimp only)
+  all_goals first | exact h | skip
+  intro k hk r' hkr
+  simp only [List.map_append, List.map_cons, List.map_nil, List.mem_append, List.mem_singleton] at hk
+  rcases hk with h1 | h1
+  · exact h k h1 r' hkr
+  · rw [h1] at hkr; injection hkr
+
+theorem poolGaugesLoop_rollok (denom : Nat) (hsup : Bool) : ∀ (ds : List Nat) (s : State), RollOK s → RollOK (poolGaugesLoop denom hsup ds s).2 := by
+  intro ds
+  induction ds with
+  | nil => intro s h; exact h
+  | cons d rest ih =>
+    intro s h
+    unfold poolGaugesLoop
+    have h1 := createGauge_rollok s h streamerAddr true denom d hsup [] s.now 1
+    generalize createGauge s streamerAddr true denom d hsup [] s.now 1 = res at h1
+    obtain ⟨o, s'⟩ := res
+    cases o <;> first | exact ih s' h1 | exact h1
+
 theorem step_rollok (s : State) (op : Op) (hg : GInv s) (h : RollOK s) : RollOK (step s op).2 := by
   unfold step
   split
@@ -380,16 +403,7 @@ theorem step_rollok (s : State) (op : Op) (hg : GInv s) (h : RollOK s) : RollOK 
             rw [← this]; exact ⟨ra, hr, he⟩
         · have he' : ra.exists_ = false := by simpa using he
           simp only [he', Bool.not_false, if_true]; exact h
-    | createGauge o p d du hsup c st n =>
-      simp only
-      unfold createGauge
-      repeat' (first | split | dsimp only)
-      all_goals first | exact h | skip
-      intro k hk r' hkr
-      simp only [List.map_append, List.map_cons, List.map_nil, List.mem_append, List.mem_singleton] at hk
-      rcases hk with h1 | h1
-      · exact h k h1 r' hkr
-      · rw [h1] at hkr; injection hkr
+    | createGauge o p d du hsup c st n => exact createGauge_rollok s h o p d du hsup c st n
     | addToGauge o gid c =>
       simp only
       unfold addToGauge
@@ -416,9 +430,12 @@ theorem step_rollok (s : State) (op : Op) (hg : GInv s) (h : RollOK s) : RollOK 
                 kinds_set s.gauges (g.id - 1) { g with coins := Coins.add g.coins c } hk' (by rw [hget'])
               rw [hkinds] at hkk
               exact h k hkk r' hkr
-    | createStream c rs st e n => exact RollOK_of_same h (createStream_same s c rs st e n)
+    | createStream sp c rs st e n => exact RollOK_of_same h (createStream_same s sp c rs st e n)
     | terminateStream id => exact RollOK_of_same h (terminateStream_same s id)
     | replaceDistr id rs => exact RollOK_of_same h (replaceDistr_same s id rs)
+    | updateDistr id rs => exact RollOK_of_same h (updateDistr_same s id rs)
+    | distribution rs => exact RollOK_of_same (s' := { s with distr := rs }) h ⟨rfl, rfl, rfl, rfl⟩
+    | poolGauges d hsup => exact poolGaugesLoop_rollok d hsup lockableDurations s h
 
 theorem run_rollok : ∀ (ops : List Op) (s : State), GInv s → RollOK s → (∀ op ∈ ops, op.wf) → RollOK (run s ops) := by
   intro ops
@@ -511,7 +528,7 @@ theorem incentives_epochEnd_ok (s : State) (e : Nat) (hg : GInv s) (hroll : Roll
     block fails.  (`MsgTransferOwnership` accepted such an owner before fix F4.) -/
 def blockedOwnerHistory : List Op :=
   [.begin 1, .end_, .rollapp 0 2 true, .rollappGauge 0, .fund streamerAddr [9000],
-   .createStream [9000] [⟨1, 1⟩] 101 1 3, .rollapp 0 102 true, .begin 3601, .end_, .begin 7201]
+   .createStream false [9000] [⟨1, 1⟩] 101 1 3, .rollapp 0 102 true, .begin 3601, .end_, .begin 7201]
 
 theorem endblock_blocked_owner_counterexample :
     (match streamerEndBlock (run (init 100 500) blockedOwnerHistory) with | .error .err => true | _ => false) = true ∧
